@@ -531,6 +531,8 @@ fn custom_which(
         .chain(r.iter().flat_map(|r| &r.tags))
         .chain(&f.tags)
         .any(|t| t == "solo")
+        // (and by shape: a scenario with exactly three own steps, whatever its tags)
+        || s.steps.len() == 3
     {
         ScenarioType::Serial
     } else {
@@ -539,6 +541,28 @@ fn custom_which(
 }
 
 pub fn runner_cli(cfg: &Config) -> RunnerCli {
+    if cfg.name.len() % 4 == 3 {
+        // a quarter of the configurations hand their CLI options over as a command line
+        // parsed by clap (options that are not given stay unset), not as a struct literal
+        let mut args: Vec<String> = vec!["prog".into()];
+        if let Some(c) = cfg.conc_cli {
+            args.extend(["--concurrency".into(), c.to_string()]);
+        }
+        if cfg.fail_fast_cli {
+            args.push("--fail-fast".into());
+        }
+        if let Some(r) = cfg.retries_cli {
+            args.extend(["--retry".into(), r.to_string()]);
+        }
+        if let Some(d) = cfg.retry_after_cli {
+            args.extend(["--retry-after".into(), format!("{}ms", d.as_millis())]);
+        }
+        if let Some(f) = &cfg.retry_filter_cli {
+            args.extend(["--retry-tag-filter".into(), f.clone()]);
+        }
+        type O = cucumber::cli::Opts<cucumber::cli::Empty, RunnerCli, cucumber::cli::Empty, cucumber::cli::Empty>;
+        return <O as clap::Parser>::try_parse_from(args).expect("command line").runner;
+    }
     RunnerCli {
         concurrency: cfg.conc_cli,
         fail_fast: cfg.fail_fast_cli,
